@@ -211,10 +211,10 @@ func readHashes(path string, into map[uint64]struct{}, cap int) bool {
 
 // ParentMain plans the run, starts the children, merges what they observed,
 // writes evidence and replay files and returns the exit code.
-func ParentMain(p *Prop, tier, verifDir string) int {
+func ParentMain(p *Prop, tier, verifDir, outDir string) int {
 	t0 := time.Now()
 	seed := envSeed()
-	work := filepath.Join(verifDir, ".work", p.ID)
+	work := filepath.Join(outDir, ".work", p.ID)
 	os.RemoveAll(work)
 	os.MkdirAll(filepath.Join(work, "cov"), 0o755)
 	n := p.Cases(tier)
@@ -394,7 +394,7 @@ func ParentMain(p *Prop, tier, verifDir string) int {
 		}
 		fresh = append(fresh, v)
 	}
-	repDir := filepath.Join(verifDir, "replays", p.ID)
+	repDir := filepath.Join(outDir, "replays", p.ID)
 	for _, v := range fresh {
 		os.MkdirAll(repDir, 0o755)
 		path := filepath.Join(repDir, fmt.Sprintf("%016x.json", HashString(v.Sig)))
@@ -463,9 +463,9 @@ func ParentMain(p *Prop, tier, verifDir string) int {
 		"wall_s":      time.Since(t0).Seconds(),
 		"violations":  len(fresh),
 	}
-	os.MkdirAll(filepath.Join(verifDir, "evidence"), 0o755)
+	os.MkdirAll(filepath.Join(outDir, "evidence"), 0o755)
 	eb, _ := json.MarshalIndent(ev, "", " ")
-	os.WriteFile(filepath.Join(verifDir, "evidence", p.ID+".json"), eb, 0o644)
+	os.WriteFile(filepath.Join(outDir, "evidence", p.ID+".json"), eb, 0o644)
 
 	fmt.Printf("%s %s seed=%d: %d cases (%d distinct non-trivial), %d library calls, %d distinct states, %.1fs: %s\n",
 		p.ID, tier, seed, cases, len(caseHashes), totalCalls, len(states), time.Since(t0).Seconds(), verdict)
